@@ -1,5 +1,5 @@
 (* C03 — non-malleable satisfactions cannot be altered by third parties.
-   Full statement (NOT proved in full; kept visible):
+   Full statement (PROVED at the level of the Script semantics: (U3), [C03_script_full]):
      sane m -> satisfy (non-malleable) m A = Some w ->
      forall w', third_party_can_build w w' -> accepts e (enc m) w' = true -> w' = w
    where third_party_can_build: every signature in w' occurs in w, everything else is free.
@@ -52,23 +52,48 @@
        typed `f` => B has no dissatisfaction [C03_static_forced_table]; typed `e` => B has exactly one
        dissatisfaction and it contains no signature [C03_static_unique_dissat_table].
 
-   (U2) SCRIPT LEVEL, as far as Theorem A and the all-stacks theorems reach:
-         - [C03_unique_script_partial]: for a sane script (typed B, m, s, wf, no repeated keys) the
-           published witness is accepted, and every table satisfaction of the third party is accepted
-           (Theorem A) and EQUALS the published witness (U1).
-         - [C03_alternative_reuses_signature_partial]: ANY accepted witness of a sane script (table
-           entry or not, any stack) contains a valid signature (C06 signed soundness); over an
-           alphabet whose only valid signatures are those of the published witness it re-uses one.
-       REMAINING GAP (= Theorem B, not proved): every witness ACCEPTED by the Script semantics
-       whose elements are drawn from the third party's alphabet is a table entry of
-       [adv_assets A Pre w], up to non-canonical dissatisfactions that the `e`/`f`/`s` rules
-       exclude for sane scripts.  U1 + Theorem B would give the full statement.  The unbounded
-       uniqueness statement is therefore still searched per run: alternative witnesses over the
-       adversary's alphabet are executed on the extracted Script semantics. *)
+   (U2) SCRIPT LEVEL via Theorem A and the all-stacks theorems (kept):
+         - [C03_unique_script_partial]: the published witness is accepted, every TABLE satisfaction of the third
+           party is accepted (Theorem A) and equals it (U1).
+         - [C03_alternative_reuses_signature_partial]: ANY accepted witness of a sane script contains a valid
+           signature (C06 signed soundness), hence re-uses a published one.
+
+   (U3) SCRIPT LEVEL, FULL STATEMENT (Theorem B closed the gap; Proofs/NonMallScript*.v), every fragment
+       (thresh any k, multi, multi_a, sorted variants; raw_pk_h excluded), every signature version:
+         - [C03_script_full]: type_of m = ROk t, base B, `m`, wf e ke m, no raw_pk_h, no repeated keys,
+           [ifsafe]: d: / or_i only under MINIMALIF (segwit v0 / tapscript; the library's Legacy / Bare contexts
+           reject them), linked ke A se f, locks_compatible se, ksort a permutation, sigs_distinct ke A, [env_ok]:
+             the empty vector is no signature; for lock values in 1..2^31-1 the honest lock view is the
+             environment's (check_locktime / check_sequence); no second 32-byte preimage of a hash the honest
+             party can open; no second acceptable key with the hash160 of a pk_h key of the script
+             (hash functions and e_sigok otherwise ARBITRARY);
+           satisfy ke se f false rhs m = Some bs (any rhs; `s` at the root is not needed for the statement);
+           then EVERY stack w' with accepts e (enc ke m) w' = true and [third_party_material]: each element of w'
+           that is a non-empty signature accepted under a key of m is the honest party's signature for that key
+           and occurs in rev bs — everything else in w' arbitrary — satisfies w' = rev bs.
+           The third party can neither change the witness nor choose another spending path.
+         - [C03_script_exact]: with assets_ok and [sigs_recognisable] (the only published element accepted under
+           key k is A's signature for k): among the stacks without forged signature ([no_forgery]),
+           accepts e (enc ke m) w' = true <-> w' = rev bs.
+         - [C03_lock_view_compatible]: for EVERY environment the lock hypotheses are jointly satisfiable (the view
+           "in range and met" is compatible); [C03_pre_unique_of_injective]: the preimage hypothesis follows from
+           injectivity of the hash functions on 32-byte strings and genuine assets; [C03_material_of_parts].
+         - [C03_script_needs_ifsafe]: under the base signature version or_i(pk(0),pk(1)) is malleable
+           ([sig0 01] and [sig0 02] are both accepted): [ifsafe] is necessary.  Not a finding: the library's
+           Legacy/Bare contexts reject or_i and d: (MalleableOrI / MalleableDupIf).
+       How: the uniqueness invariant is redone over the exact relation R of Theorem B; every non-canonical clause of
+       R (other 32-byte hash dissatisfactions, over-/partially satisfied thresh, or_b with both sides satisfied,
+       and_b / andor / multi_a / j: extra dissatisfactions, other keys for pk_h, non-minimal selectors) is shown
+       dead from `s` / `f` / `e` of the operands, from a missing signature, or from the environment hypotheses.
+       NOTHING IS REFUTED: no sane script + witness pair violates the full statement in the model.
+       REMAINING (outside the Script semantics of Script/Exec.v): signature-level malleability (the model has one
+       acceptable signature per key among the material; low-S / strict DER / Schnorr), witness-size standardness
+       limits, and the descriptor wrappers (wsh / sh / tr script path: C01's composition). *)
 From Verif Require Import Exec Ser Ast Types TypeCheck SatSpec Sat ExecLemmas TheoremA SatProofs HasSigProofs.
 From Verif Require Import CompleteProofs CompleteNonMall SignedLemmas SignedSound
-  NonMallUnique NonMallUniqueThresh NonMallUniqueMulti NonMallUniqueMain NonMallUniqueExamples NonMallUniqueStatic NonMallUniqueExact.
-From Coq Require Import Permutation.
+  NonMallUnique NonMallUniqueThresh NonMallUniqueMulti NonMallUniqueMain NonMallUniqueExamples NonMallUniqueStatic NonMallUniqueExact NonMallScript NonMallScriptMain.
+From Verif Require Import FrameBase FrameSound DenotSpec.
+From Coq Require Import Permutation ZArith.
 
 Theorem C03_hassig_bookkeeping_partial : forall (ke : keyenv) (se : senv) (rhs : bool) (m : ms),
   P (fst (sat_dissat ke se false rhs m)) /\ P (snd (sat_dissat ke se false rhs m)).
@@ -305,3 +330,71 @@ Example C03_static_nonvacuous :
   (exists t, type_of c02x_thresh = ROk t /\ m_nm (t_mall t) = true /\ m_signed (t_mall t) = true /\ m_dissat (t_mall t) = DUnique) /\
   all_sat c02x_ke ux_B0 c02x_thresh = [] /\ all_dsat c02x_ke ux_B0 c02x_thresh = [[[]; []; []]].
 Proof. exact static_nonvacuous. Qed.
+
+(* ---------------- (U3) script level, full statement ---------------- *)
+Theorem C03_script_full :
+  forall (e : env) (ke : keyenv) (A : assets) (se : senv) (f : fill),
+  linked ke A se f -> locks_compatible se -> (forall ks, Permutation (ksort ke ks) ks) -> sigs_distinct ke A ->
+  forall (rhs : bool) (m : ms) (t : ty),
+  type_of m = ROk t -> c_base (t_corr t) = BB -> wf e ke m -> no_multi m -> NoDup (ukeys m) -> m_nm (t_mall t) = true ->
+  ifsafe (minimalif (e_sv e)) m -> env_ok e ke A (ukeys m) ->
+  forall bs, satisfy ke se f false rhs m = Some bs ->
+  forall w', accepts e (enc ke m) w' = true -> third_party_material e ke A (ukeys m) (rev bs) w' -> w' = rev bs.
+Proof. exact nonmall_unique_script_full. Qed.
+Print Assumptions C03_script_full.
+
+Theorem C03_script_exact :
+  forall (e : env) (ke : keyenv) (A : assets) (se : senv) (f : fill),
+  linked ke A se f -> locks_compatible se -> (forall ks, Permutation (ksort ke ks) ks) -> sigs_distinct ke A ->
+  assets_ok e ke A ->
+  forall (rhs : bool) (m : ms) (t : ty),
+  type_of m = ROk t -> c_base (t_corr t) = BB -> wf e ke m -> no_multi m -> NoDup (ukeys m) -> m_nm (t_mall t) = true ->
+  ifsafe (minimalif (e_sv e)) m -> env_ok e ke A (ukeys m) ->
+  forall bs, satisfy ke se f false rhs m = Some bs ->
+  sigs_recognisable e ke A (ukeys m) (rev bs) ->
+  forall w', no_forgery e ke (ukeys m) (rev bs) w' ->
+    (accepts e (enc ke m) w' = true <-> w' = rev bs).
+Proof. exact nonmall_script_exact. Qed.
+Print Assumptions C03_script_exact.
+
+Theorem C03_material_of_parts :
+  forall (e : env) (ke : keyenv) (A : assets) (K : list key) (w w' : list bytes),
+  no_forgery e ke K w w' -> sigs_recognisable e ke A K w -> third_party_material e ke A K w w'.
+Proof. exact material_of_parts. Qed.
+Print Assumptions C03_material_of_parts.
+
+Theorem C03_lock_view_compatible :
+  forall (e : env) (se : senv),
+  (forall t, se_after se t = in_range t && check_locktime e (Z.of_N t)) ->
+  (forall t, se_older se t = in_range t && check_sequence e (Z.of_N t)) -> locks_compatible se.
+Proof. exact lock_view_compatible. Qed.
+Print Assumptions C03_lock_view_compatible.
+
+Theorem C03_pre_unique_of_injective :
+  forall (e : env) (ke : keyenv) (A : assets), assets_ok e ke A ->
+  (forall kd x1 x2, blen x1 = 32%N -> blen x2 = 32%N -> hfun e kd x1 = hfun e kd x2 -> x1 = x2) ->
+  forall kd h p x, look A kd h = Some p -> blen x = 32%N -> hfun e kd x = h -> x = p.
+Proof. exact pre_unique_of_injective. Qed.
+Print Assumptions C03_pre_unique_of_injective.
+
+Theorem C03_script_needs_ifsafe :
+  (exists t, type_of sxb_ms = ROk t /\ c_base (t_corr t) = BB /\ m_nm (t_mall t) = true /\ m_signed (t_mall t) = true) /\
+  wf sxb_env ex_ke sxb_ms /\ ~ ifsafe (minimalif (e_sv sxb_env)) sxb_ms /\
+  satisfy ex_ke sx_se sx_f false true sxb_ms = Some [[2; 0; 1]; [1]]%N /\
+  accepts sxb_env (enc ex_ke sxb_ms) [[1]; [2; 0; 1]]%N = true /\
+  accepts sxb_env (enc ex_ke sxb_ms) [[2]; [2; 0; 1]]%N = true /\
+  third_party_material sxb_env ex_ke sx_A (ukeys sxb_ms) [[1]; [2; 0; 1]]%N [[2]; [2; 0; 1]]%N.
+Proof. exact script_needs_ifsafe. Qed.
+Print Assumptions C03_script_needs_ifsafe.
+
+(* non-vacuity of C03_script_full: thresh(2, pk(0), s:pk(1), s:pk(2)) in the v0 environment of FrameSound.v; every
+   hypothesis holds, the published witness is accepted and meets the material condition, a rearrangement is rejected *)
+Example C03_script_full_nonvacuous :
+  linked ex_ke sx_A sx_se sx_f /\ locks_compatible sx_se /\ (forall ks, Permutation (ksort ex_ke ks) ks) /\ sigs_distinct ex_ke sx_A /\
+  (exists t, type_of sx_ms = ROk t /\ c_base (t_corr t) = BB /\ m_nm (t_mall t) = true /\ m_signed (t_mall t) = true) /\
+  wf ex_env ex_ke sx_ms /\ no_multi sx_ms /\ NoDup (ukeys sx_ms) /\ ifsafe (minimalif (e_sv ex_env)) sx_ms /\ env_ok ex_env ex_ke sx_A (ukeys sx_ms) /\
+  satisfy ex_ke sx_se sx_f false true sx_ms = Some sx_bs /\
+  accepts ex_env (enc ex_ke sx_ms) (rev sx_bs) = true /\
+  third_party_material ex_env ex_ke sx_A (ukeys sx_ms) (rev sx_bs) (rev sx_bs) /\
+  accepts ex_env (enc ex_ke sx_ms) [[2; 0; 1]; [2; 2; 1]; []]%N = false.
+Proof. exact script_full_nonvacuous. Qed.
